@@ -6,7 +6,19 @@ p = os.path.join(HERE, 'DESIGN.md')
 s = open(p).read()
 def run(t):
     return subprocess.run(['python3', os.path.join(HERE, 'tools', t)], capture_output=True, text=True).stdout
+import json as _json
+_checks = _json.load(open(os.path.join(HERE, 'tools', 'manifest_checks.json')))
+_asbuilt = ''.join(f"**{k}.** {v['text']}\n\n*Trusted / outside the model:* {v['note']}\n\n" for k, v in sorted(_checks.items()))
 blocks = {
+ 'ASBUILT': '## 4b. What each check proves and ties, as built (generated from tools/manifest_checks.json = MANIFEST level texts)\n\n'
+            'Section 4 above is the round-0 plan; this is what exists. Theorem names are listed in section 12.\n\n' + _asbuilt,
+ 'SEEDS': '## 10b. Seeded changes of rounds 4 and 5 (generated from seeded/*/meta.json)\n\n'
+          'Rounds 4 and 5 asked fresh sub-agents for two more changes per property each, telling them which mechanisms earlier '
+          'seeds had used and which weaknesses of the tree were already known, so that they would look elsewhere. "first run" is '
+          'what the check as it stood reported (CAUGHT = VIOLATION with a concrete replay; CAUGHT-NOINPUT = only '
+          '`no-failing-input-found`; MISSED = exit 0); every miss was turned into a deterministic corpus / boundary family plus '
+          'its neighbours by the property owner, and the last column is the outcome of the final regression '
+          '(`tools/test_all_seeds.sh`).\n\n' + run('seed_table.py'),
  'FINDINGS': '## 11. Findings on the unchanged tree (generated from known_findings.jsonl and known_findings.d/)\n\n'
              'Every entry was re-found by the machinery (signature = predicate over the failing case computed in the harness). '
              '`fixed <commit>` entries were repaired in /repo by a `fix:` commit and suppress nothing; `finding` entries are '
